@@ -354,3 +354,14 @@ package model
 //@   ensures {C04,C01} ok == (is(derefT(t), *types.Named) || is(derefT(t), *types.Basic))
 //@   ensures {C04,C01,C02} ok ==> r == box(TypecastEntry{inner: inner, typ: t, expr: castExpr(scope, imports, t)})
 //@   ensures !ok ==> r == nil
+//@
+//@ func IterateStructFields(structNode, cb)
+//@   requires wfNode(structNode)
+//@   use T0(derefT(exprType(structNode))), T0(underlying(derefT(exprType(structNode))))
+//@   iterates cb count nFieldsOf(exprType(structNode)) elem box(StructFieldNode{parent: structNode, field: fieldAt(structOf(exprType(structNode)), $i)})
+//@   iter IterateFields invariant $it.next == $k && $it.stopped == $done
+//@ func IterateStructMethods(structNode, cb)
+//@   requires wfNode(structNode)
+//@   use T0(derefT(exprType(structNode)))
+//@   iterates cb count nMethodsOf(exprType(structNode)) elem box(StructMethodNode{container: structNode, method: methodAt(namedOf(exprType(structNode)), $i)}) when compliesGetter(methodAt(namedOf(exprType(structNode)), $i))
+//@   iter IterateMethods invariant $it.next == $k && $it.stopped == $done
